@@ -1025,3 +1025,162 @@ def write_rules(run, R="WRITE"):
             why = "the bytes written are `%s`, not the data parameter" % data
     run.check(ok, R, R + "|success-means-written", f.loc(), "FileServerReal::write_bytes answers Ok only after creating the file and writing the given data succeeded",
               "FileServerReal::write_bytes: %s: a run could report success without the requested output file existing with its contents" % why)
+
+
+def bank_range_rules(run, R="MPT"):
+    """check_bank_output rejects an item by its END: the rejection decision depends on position + item size and on the bank's
+    size (an item that starts inside the bank but ends beyond it is rejected)"""
+    f = run.anchor(R, "asm::output::check_bank_output")
+    if f is None:
+        return
+    # the item size is the usize parameter, the position comes from the context
+    szp = [i for i in range(1, f.arg_count + 1) if f.local_ty(i) == "usize"]
+    ok = len(szp) == 1
+    why = "no single usize parameter (the item size)"
+    if ok:
+        sz = szp[0]
+        # the first rejection: a switch whose taken edge reports `out of range` and fails
+        from rules_sym import report_error_in_region as rep2
+        found = False
+        for b in sorted(f.reachable()):
+            tt = f.blocks[b]["term"]
+            if tt["k"] != "switch" or op_local(tt["discr"]) is None:
+                continue
+            for e in f.succs(b):
+                reg = T.dominated_region(f, e, b)
+                if rep2(f, reg) and err_return_in_region(f, reg):
+                    d = _deep(f, tt["discr"], 8)
+                    dep_size = value_depends_on(f, tt["discr"], sz)
+                    if "cur_position" in d and ".size" in d:
+                        found = True
+                        ok = dep_size and ("P%d" % sz) in d
+                        why = "the out-of-range decision `%s` does not involve the item's size: only the start of an item is tested against the bank's size" % d[:160]
+        if not found:
+            ok = False
+            why = "no rejection that compares the position with the bank's size"
+    run.check(ok, R, R + "|bank-range|end-of-item", f.loc(), "an item is rejected when position + size exceeds the bank's size",
+              "check_bank_output: %s; an item that starts inside the bank but ends past it would be written beyond the bank (into the next bank's window)" % why)
+
+
+def _read_places(f, op, seen=None, depth=0, out=None):
+    """all places (local, projection names) read, transitively, to compute an operand"""
+    from mir import rv_operands, rv_places
+    out = out if out is not None else set()
+    seen = seen if seen is not None else set()
+    pl = op_place(op)
+    if pl is None or depth > 25:
+        return out
+    out.add((pl["l"], tuple((pr.get("name") if "f" in pr else pr.get("downcast")) if isinstance(pr, dict) else pr for pr in pl["p"])))
+    l = pl["l"]
+    if l in seen:
+        return out
+    seen.add(l)
+    for d in f.full_defs(l) + f.partial_defs(l):
+        if d[0] == "call":
+            for a in d[2]["args"]:
+                _read_places(f, a, seen, depth + 1, out)
+        elif d[3]["k"] == "assign":
+            rv = d[3]["rv"]
+            for o in rv_operands(rv):
+                _read_places(f, o, seen, depth + 1, out)
+            for p2 in rv_places(rv):
+                _read_places(f, {"copy": p2}, seen, depth + 1, out)
+    return out
+
+
+def bank_overlap_rules(run, R="MPT"):
+    """check_bank_overlap: whenever a bank of a pair has a size, the overlap decision for that pair reads that size (its end),
+    not only where the banks start"""
+    f = run.anchor(R, "asm::output::check_bank_overlap")
+    if f is None:
+        return
+    from rules_sym import report_error_in_region as rep2
+    dec = None
+    for b in sorted(f.reachable()):
+        tt = f.blocks[b]["term"]
+        if tt["k"] == "switch" and op_local(tt["discr"]) is not None and f.local_ty(op_local(tt["discr"])) == "bool":
+            reg = T.dominated_region(f, tt["otherwise"], b)
+            if rep2(f, reg) and err_return_in_region(f, reg):
+                dec = f.copy_root(op_local(tt["discr"]))
+    if dec is None:
+        run.violation(R, R + "|bank-overlap|decision", f.loc(), "mechanism not found: the overlap decision of check_bank_overlap")
+        return
+    # switches `<place> is Some` on Option<usize> places that hold a bank size
+    size_switches = []
+    for b in sorted(f.reachable()):
+        tt = f.blocks[b]["term"]
+        if tt["k"] != "switch" or op_local(tt["discr"]) is None:
+            continue
+        dl = op_local(tt["discr"])
+        ds = f.full_defs(dl)
+        if len(ds) != 1 or ds[0][0] != "stmt" or ds[0][3]["rv"]["k"] != "discr" or "Option<usize>" not in (ds[0][3]["rv"].get("adt") or ""):
+            continue
+        pl = ds[0][3]["rv"]["place"]
+        if ".size" not in _deep(f, {"copy": pl}, 6):
+            continue
+        vs = ds[0][3]["rv"].get("variants") or {}
+        some = [tg for v, tg in tt["targets"] if vs.get(v) == "Some"]
+        if not some and any(vs.get(v) == "None" for v, tg in tt["targets"]):
+            some = [tt["otherwise"]]
+        key = (pl["l"], tuple((pr.get("name") if "f" in pr else pr.get("downcast")) if isinstance(pr, dict) else pr for pr in pl["p"]))
+        for tg in some:
+            size_switches.append((b, tg, key))
+    n = 0
+    bad = []
+    groups = {}
+    for dd in f.full_defs(dec):
+        blk = dd[1]
+        reads = set()
+        if dd[0] == "call":
+            for a in dd[2]["args"]:
+                _read_places(f, a, out=reads)
+                from mir import closure_of_origin
+                cid = closure_of_origin(f.origin_op(a))
+                if cid:
+                    ag = peel(f.origin_op(a))
+                    if ag[0] == "agg":
+                        for o in ag[1]["ops"]:
+                            _read_places(f, o, out=reads)
+        elif dd[3]["k"] == "assign":
+            from mir import rv_operands
+            for o in rv_operands(dd[3]["rv"]):
+                _read_places(f, o, out=reads)
+        doms = frozenset((sb, edge, key) for sb, edge, key in size_switches if f.edge_dominates(sb, edge, blk))
+        for sb, edge, key in doms:
+            # control dependence inside the arm (`a && b`: the second assignment happens on an edge decided by `a`)
+            for sb2 in f.dominators().get(blk, ()):
+                t2 = f.blocks[sb2]["term"]
+                if t2["k"] == "switch" and sb2 != blk and f.edge_dominates(sb, edge, sb2) and op_local(t2["discr"]) is not None and f.local_ty(op_local(t2["discr"])) == "bool":
+                    _read_places(f, t2["discr"], out=reads)
+        if doms:
+            g = groups.setdefault(doms, [set(), blk])
+            g[0] |= reads
+    for doms, (reads, blk) in groups.items():
+        for sb, edge, key in doms:
+            n += 1
+            hit = any(l == key[0] and pr[:len(key[1])] == key[1] and len(pr) > len(key[1]) and pr[len(key[1])] == "Some" for l, pr in reads)
+            if not hit:
+                bad.append("line %d" % f.blocks[blk]["term"].get("span", {}).get("line", 0))
+    run.check(n >= 2 and not bad, R, R + "|bank-overlap|sizes-decide", f.loc(), "for every pair of banks, a bank's size takes part in the overlap decision whenever it has one (%d arm/size combinations inspected)" % n,
+              "check_bank_overlap: in a case where a bank has a size, the overlap decision (%s) does not read that size: a sized bank that starts before an unbounded one and reaches into it would be accepted" % (", ".join(bad[:3]) if bad else "no size-dependent arms found"))
+
+
+def _split_top(s):
+    out, depth, cur = [], 0, ""
+    for ch in s:
+        if ch in "({[":
+            depth += 1
+        elif ch in ")}]":
+            depth -= 1
+        if ch == "," and depth == 0:
+            out.append(cur.strip())
+            cur = ""
+        else:
+            cur += ch
+    if cur.strip():
+        out.append(cur.strip())
+    return out
+
+
+def _mentions_payload(val, sd):
+    return (sd + "@Some.0") in val
